@@ -89,6 +89,16 @@ func (p *DecodeProvider) Run(ctx context.Context, deps core.ProviderDeps) (err e
 		return errors.WithMessage(err, "decoder construction failed")
 	}
 	var ammoNum int
+	if multipass, ok := multipassReader.(*ioutil2.MultiPassReader); ok {
+		// A pass over the source that gave no ammo (empty source, nothing but white space) is not repeated:
+		// the decoder gets io.EOF and the provider finishes.
+		passStart := 0
+		multipass.SetProgress(func() bool {
+			progress := ammoNum > passStart
+			passStart = ammoNum
+			return progress
+		})
+	}
 	for ; p.conf.Limit <= 0 || ammoNum < p.conf.Limit; ammoNum++ {
 		ammo := p.InputPool.Get()
 		err = decoder.Decode(ammo)
